@@ -240,9 +240,9 @@ func queries(t *simkit.Tape, o *simkit.Outcome, g guard) {
 	for i := 0; i < n; i++ {
 		str, _ := model.GenExprAny(t, env)
 		mutated := false
-		if t.Bool(1, 25) {
+		if t.Bool(1, 60) {
 			// long / deeply nested but valid expressions (parser recursion, quadratic paths)
-			k := 20 + t.Draw(280)
+			k := 20 + t.Draw(130)
 			switch t.Draw(8) {
 			case 0:
 				str = strings.Repeat("(", k) + str + strings.Repeat(")", k)
